@@ -4,4 +4,6 @@ let lookup (p : string) : sx -> sx =
   match p with
   | "C13" -> run_C13
   | "C08" -> run_C08
+  | "C04" -> run_C04
+  | "C12" -> run_C12
   | _ -> failwith ("no model entry point for " ^ p)
